@@ -44,8 +44,9 @@ def run(ctx):
     ins = [m for m in prims.mutations(co) if prims.self_field(m.path) == 'operations' and m.method == 'insert']
     ok = len(ins) == 1 and show(ins[0].cs.arg(1)) == 'id' and show(dict(ins[0].cs.arg(2)[3]).get('id')) == 'id'
     from ..mir import var_inits
-    idi = var_inits(co, 'id')
-    ok = ok and [show(e) for _, e in idi] == ['self.next_operation_id'] and ws and (idi[0][0] == ws[0][1].bb or co.dominates(idi[0][0], ws[0][1].bb))
+    from ..mir import var_init_sites, happens_before
+    idi = var_init_sites(co, 'id')
+    ok = ok and [show(e) for _, _, e in idi] == ['self.next_operation_id'] and bool(ws) and happens_before(co, (idi[0][0], idi[0][1]), ws[0][1].pos)
     ctx.ob(ok, 'create_operation snapshots the id before the increment and stores/returns it', 'opid-snapshot', loc=co.loc())
     new = ctx.fn('ProtocolState::new')
     init = None
